@@ -487,8 +487,11 @@ func (rc *RuleClient) ruleProcessPoints(nodeID string, points data.Points) (bool
 				case data.PointValueText:
 					switch c.Operator {
 					case data.PointValueEqual:
+						active = p.Text == c.ValueText
 					case data.PointValueNotEqual:
+						active = p.Text != c.ValueText
 					case data.PointValueContains:
+						active = strings.Contains(p.Text, c.ValueText)
 					}
 				case data.PointValueOnOff:
 					condValue := c.Value != 0
